@@ -30,6 +30,8 @@ func checkC13(r *Report, p *Program) {
 	// pointer fields of hook answers (customize rules) are nil when the hook leaves them out
 	optionalFieldsChecked(r, p, "R13.11", 10)
 	commaOkValuesUsedWhenOk(r, p, "R13.12", 20)
+	resultNotUsedBeforeErrorCheck(r, p, "R13.13")
+	foundValuesGuarded(r, p, "R13.14")
 	// shouldContinueRolling hands latest.desiredChildMap[name] to ApplyUpdate unchecked: what makes that
 	// non-nil is that syncRevisionClaims keeps, for EVERY revision incl. the latest, only names the latest desires
 	r09_5(r, p)
